@@ -98,10 +98,24 @@ pub fn history(rec: &RunRec) -> Hist {
         match &e.k {
             EvK::Session(idx) => {
                 sessions_seen = idx + 1;
+                let mut stop_handled = false;
                 if let Some(l) = h.lines.last_mut() {
                     if l.board_after.is_none() {
                         l.board_after = Some(*idx);
                         l.t0_yields_back = Some(e.tyields);
+                        stop_handled = l.text.split_whitespace().next() == Some("stop");
+                    }
+                }
+                // A `stop` line the engine has finished with counts as a stop for the search that
+                // is alive at that moment, whether or not the engine stored anything (a stop that
+                // does nothing must not be invisible).
+                if stop_handled {
+                    if let Some(gi) = h.gos.iter().rposition(|g| g.tid.is_some()) {
+                        let g = &mut h.gos[gi];
+                        if g.stop_ev.is_none() && !g.thread_ended {
+                            g.stop_ev = Some(i);
+                            g.stop_tticks = last_tticks[g.tid.unwrap() as usize];
+                        }
                     }
                 }
             }
